@@ -248,11 +248,53 @@ def curved(chk, rng):
         c[0] = 99.0
         if float(np.asarray(sh.centroid)[0]) != 1.0:
             chk.violation("caller-array-stored", dict(cls=name, what="mutating the centre array passed to the constructor moved the shape"))
+    input_forms(chk, rng)
     # Polygon normal array untouched
     nrm = np.array([0.0, 0.0, 2.0])
     S.Polygon(np.array([[0, 0, 0], [1, 0, 0], [1, 1, 0], [0, 1, 0.]]), normal=nrm)
     if not np.array_equal(nrm, [0.0, 0.0, 2.0]):
         chk.violation("caller-array-modified", dict(cls="Polygon", what="the normal array passed by the caller was normalised in place"))
+
+
+def input_forms(chk, rng):
+    """The same valid geometry given as an integer array, nested python lists, or tuples constructs the same shape (vertices, measure)
+    as the float array, and the caller's object is left as it was."""
+    import coxeter
+
+    S = coxeter.shapes
+    quad = np.array([[0, 0, 0], [4, 0, 0], [5, 3, 0], [1, 2, 0]])                       # convex, counter-clockwise, integer
+    ell = np.array([[0, 0, 0], [4, 0, 0], [4, 1, 0], [1, 1, 0], [1, 3, 0], [0, 3, 0]])      # non-convex L
+    box = np.array([[x, y, z] for x in (0, 3) for y in (0, 2) for z in (0, 5)]) + np.array([1, -2, 4])
+    cp = S.ConvexPolyhedron(box.astype(float))
+    faces = [list(map(int, f)) for f in cp.faces]
+    boxv = np.array(np.round(cp.vertices), int)
+    ctors = [("Polygon", lambda v: S.Polygon(v), ell, "area"), ("ConvexPolygon", lambda v: S.ConvexPolygon(v), quad, "area"),
+             ("ConvexSpheropolygon", lambda v: S.ConvexSpheropolygon(v, 1), quad, "area"),
+             ("ConvexPolyhedron", lambda v: S.ConvexPolyhedron(v), box, "volume"),
+             ("ConvexSpheropolyhedron", lambda v: S.ConvexSpheropolyhedron(v, 1), box, "volume"),
+             ("Polyhedron", lambda v: S.Polyhedron(v, faces), boxv, "volume")]
+    for name, mk, Vint, meas in ctors:
+        ref = mk(Vint.astype(float))
+        for form, arg in (("integer array", Vint.copy()), ("nested lists", Vint.astype(float).tolist()), ("integer nested lists", Vint.tolist()),
+                          ("tuple of tuples", tuple(map(tuple, Vint.astype(float).tolist())))):
+            keep = arg.copy() if isinstance(arg, np.ndarray) else [list(r) for r in arg]
+            st, sh = C.excname(mk, arg)
+            chk.case([name, "input-form", form], True)
+            desc = dict(cls=name, form=form, vertices=Vint.tolist())
+            if st != "ok":
+                chk.violation("valid-input-form-rejected", dict(desc, error=st)); continue
+            same = np.array_equal(np.asarray(sh.vertices, float), np.asarray(ref.vertices, float))
+            m1, m0 = float(getattr(sh, meas)), float(getattr(ref, meas))
+            if not same or abs(m1 - m0) > 1e-12 * abs(m0) or np.asarray(sh.vertices).dtype.kind != "f":
+                chk.violation("input-form-changes-shape", dict(desc, measure=m1, expected=m0, dtype=str(np.asarray(sh.vertices).dtype)))
+            now = arg if isinstance(arg, np.ndarray) else [list(r) for r in arg]
+            if (isinstance(arg, np.ndarray) and (not np.array_equal(now, keep) or now.dtype != keep.dtype)) or (not isinstance(arg, np.ndarray) and now != keep):
+                chk.violation("caller-array-modified", dict(desc))
+            # a later in-place operation on the shape must not reach the caller's object either
+            if isinstance(arg, np.ndarray):
+                sh.centroid = np.asarray(sh.centroid, float) + 1.0
+                if not np.array_equal(arg, keep):
+                    chk.violation("caller-array-stored", dict(desc, what="moving the shape changed the array passed to the constructor"))
 
 
 def extra_coverage(chk):
